@@ -6,11 +6,13 @@ import Driver.Lock
 import Driver.Paginate
 import Driver.Log
 import Driver.SqlText
+import Driver.Bytecode
 /-! registry of the areas the driver serves -/
 namespace Driver
 def areas : List (String × Handler) := [
   ("bulk", BulkD.handle),
   ("numscript", NumscriptD.handle),
+  ("nsbytecode", BytecodeD.handle),
   ("router", RouterD.handle),
   ("lock", LockD.handle),
   ("paginate", PaginateD.handle),
